@@ -203,24 +203,55 @@ theorem lineSearch_stopped_fixed (P : Problem α) (dir : Direction D α) (pr : P
 
 /-! ### Initialisation -/
 
-theorem initQub_good (P : Problem α) (pr : Params α) (f : Nat) (c : Iterate α) (t b : Nat)
-    (h : Good P c) : Good P (initQub P pr f c t b).1 := by
+theorem initQub_good (P : Problem α) (pr : Params α) (stop : Nat → Bool) (f : Nat) (c : Iterate α)
+    (t b : Nat) (h : Good P c) : Good P (initQub P pr stop f c t b).1 := by
   induction f generalizing c t b with
   | zero => simpa [initQub] using h
   | succ f ih =>
     unfold initQub
     split_ifs
+    · exact h
     · exact ih _ _ _ (good_evalStep P _)
     · exact h
 
-theorem initState_good (P : Problem α) (d0 : D) (pr : Params α) (x0 gV : Vec α) (gS : α)
-    (s : St α D) (h : initState P d0 pr x0 gV gS = .inr s) :
+/-- **Once the flag is visible the initial step-size loop makes no further call.** -/
+theorem initQub_stop_noop (P : Problem α) (pr : Params α) (stop : Nat → Bool) (f : Nat)
+    (c : Iterate α) (t b : Nat) (h : stop t = true) :
+    initQub P pr stop (f + 1) c t b = (c, t, b, false) := by
+  unfold initQub; simp [h]
+
+/-- With a flag that is never lowered and visible from tick `t₀` on, the initial step-size loop
+    entered at tick `t` is left at tick `≤ max t (t₀ + 1)` (a backtrack, 2 calls, is only started
+    while the flag is invisible). -/
+theorem initQub_tick_bound (P : Problem α) (pr : Params α) (stop : Nat → Bool)
+    (hm : ∀ t t', t ≤ t' → stop t = true → stop t' = true) (t0 : Nat) (h0 : stop t0 = true)
+    (f : Nat) (c : Iterate α) (t b : Nat) :
+    (initQub P pr stop f c t b).2.1 ≤ max t (t0 + 1) := by
+  induction f generalizing c t b with
+  | zero => simp only [initQub]; omega
+  | succ f ih =>
+    unfold initQub
+    by_cases hst : stop t
+    · simp only [hst, if_true]; omega
+    · simp only [hst, Bool.false_eq_true, if_false]
+      have hlt : t < t0 := by
+        apply Nat.lt_of_not_le
+        intro hc
+        exact hst (hm t0 t hc h0)
+      split_ifs
+      · have := ih (evalCostInProx P (evalProxGradStep P { c with gamma := c.gamma / 2, L := c.L * 2 }))
+          (t + 2) (b + 1)
+        omega
+      · simp only []; omega
+
+theorem initState_good (P : Problem α) (d0 : D) (pr : Params α) (stop : Nat → Bool) (x0 gV : Vec α)
+    (gS : α) (s : St α D) (h : initState P d0 pr stop x0 gV gS = .inr s) :
     Good P s.curr ∧ s.k = 0 ∧ s.cbs = [] ∧ s.noProgress = 0 := by
   unfold initState at h
   simp only [] at h
   split_ifs at h
   injection h with h; subst h
-  exact ⟨initQub_good P pr _ _ _ _ (good_evalStep P _), rfl, rfl, rfl⟩
+  exact ⟨initQub_good P pr stop _ _ _ _ (good_evalStep P _), rfl, rfl, rfl⟩
 
 /-! ### Main loop -/
 
